@@ -29,6 +29,13 @@ func verifContains(xs []string, s string) bool {
 // respects the option's constraints; with no value given it yields exactly what
 // the JobConfig's defaults produce.
 func VerifH_C18_L1_evaluate() {
+	// ZeroForNonConfig clears the non-pointer fields by reflection; the stand-in
+	// names the same fields explicitly
+	VerifHook_ZeroForNonConfig = func(option execution.Option) execution.Option {
+		n := option.DeepCopy()
+		n.Type, n.Name, n.Label, n.Required = "", "", "", false
+		return *n
+	}
 	opt := execution.Option{Name: "o"}
 	opt.Required = vz.Bool("required")
 	kind := vz.Choice("type", 4)
